@@ -24,7 +24,8 @@ RULE = ("one run = document containing the E cell (run index mod 144) + schedule
         "collections of every segment compared with the model at every settled step; distinct = distinct "
         "(segment neighbourhood digest) values")
 PROBES = ["cell_checked", "edge_before_segments", "after_rename", "after_removal", "whole_whole_either",
-          "self_edge", "gap_checked", "link_checked", "containment_checked", "derived_queries", "flip_ref"]
+          "self_edge", "gap_checked", "link_checked", "containment_checked", "derived_queries", "flip_ref",
+          "derived_while_unsettled", "edge_reshaped"]
 KINDS = G.INTERVAL_KINDS
 CELLS = [(o1, o2, k1, k2) for o1 in "+-" for o2 in "+-" for k1 in KINDS for k2 in KINDS]
 
@@ -100,6 +101,31 @@ def gen(streams, tier, i, over=None):
             # re-filed: either way the collections follow the text)
             nm = hr.choice([x for x in names if ns[x][0].rt in ("E", "G")])
             ops.append({"op": "flip_ref", "id": nm, "field": hr.choice(["sid1", "sid2"]), "how": hr.choice(["invert", "set"])})
+        elif r < 0.66 and version == "gfa2" and any(ns[x][0].rt == "E" for x in names):
+            # an edge is asked what it is, taken out of the Gfa, given other positions / orientations (so that it
+            # becomes an edge of another kind or of another end) and added again, the same object
+            nm = hr.choice([x for x in names if ns[x][0].rt == "E"])
+            rec = ns[nm][0]
+            a, b = rec.pos[1][:-1], rec.pos[2][:-1]
+            la, lb = m.seglen(a), m.seglen(b)
+            if la is None or lb is None or m.by_name(a) is None or m.by_name(b) is None:
+                continue
+            o1, o2, k1, k2 = hr.choice(CELLS)
+            if hr.random() < 0.3:
+                a, b = b, a
+                la, lb = lb, la
+            b1, e1 = G.interval(hr, k1, la)
+            b2, e2 = G.interval(hr, k2, lb)
+            newline = "\t".join(["E", nm, a + o1, b + o2, G.pos_str(b1, la), G.pos_str(e1, la), G.pos_str(b2, lb),
+                                 G.pos_str(e2, lb), rec.pos[7]] + rec.render().split("\t")[9:])
+            mm = m.copy()
+            mm.remove([mm.by_name(nm)])
+            if mm.add_text(newline) != "ok":
+                continue
+            for x in m.remove([rec]):
+                removed.append(x.render())
+            m.add_text(newline)
+            ops.append({"op": "reshape_edge", "id": nm, "line": newline})
         elif r < 0.7 and removed:
             t = hr.choice(removed)
             if m.copy().add_text(t) in ("ok", "merged"):
@@ -206,7 +232,23 @@ def check(w, m, st, n, op):
                                      "after step %d %r: segment %s %s: gfapy %r, specification %r" %
                                      (n, op.get("line", op), s, c, gs.get(c, []), ws.get(c, [])),
                                      coll=c, op=op["op"])
-    # ---- derived answers
+    derived(g, st, n)
+    v = g.version
+    # gfa-level collections
+    nd = sorted(ob.canon_key(l, v) for l in g.dovetails if not l.virtual)
+    wd = sorted(k for s in want for c in ("dovetails_L", "dovetails_R") for k in want[s].get(c, []))
+    # every dovetail is filed twice (once per side)
+    if sorted(nd + nd) != wd:
+        raise core.Violation("gfa-dovetails", "gfa.dovetails=%r, specification %r" % (nd, sorted(set(wd))), coll="gfa.dovetails")
+    nc = sorted(ob.canon_key(l, v) for l in g.containments)
+    wc = sorted(k for s in want for k in want[s].get("edges_to_contained", []))
+    if nc != wc:
+        raise core.Violation("gfa-containments", "gfa.containments=%r, specification %r" % (nc, wc), coll="gfa.containments")
+
+
+def derived(g, st, n):
+    """neighbours, containers, contained, other-end answers follow from the collections (whatever the document:
+    also while lines are still missing and placeholders stand for them)"""
     st.count("probe.derived_queries")
     v = g.version
     for s in g.segments:
@@ -259,16 +301,6 @@ def check(w, m, st, n, op):
             if not l.is_internal():
                 raise core.Violation("type-mismatch", "%r filed as internal reports another type" % ob.line_text(l),
                                      coll="internals")
-    # gfa-level collections
-    nd = sorted(ob.canon_key(l, v) for l in g.dovetails if not l.virtual)
-    wd = sorted(k for s in want for c in ("dovetails_L", "dovetails_R") for k in want[s].get(c, []))
-    # every dovetail is filed twice (once per side)
-    if sorted(nd + nd) != wd:
-        raise core.Violation("gfa-dovetails", "gfa.dovetails=%r, specification %r" % (nd, sorted(set(wd))), coll="gfa.dovetails")
-    nc = sorted(ob.canon_key(l, v) for l in g.containments)
-    wc = sorted(k for s in want for k in want[s].get("edges_to_contained", []))
-    if nc != wc:
-        raise core.Violation("gfa-containments", "gfa.containments=%r, specification %r" % (nc, wc), coll="gfa.containments")
 
 
 def run(scn, st):
@@ -308,7 +340,7 @@ def run(scn, st):
             if m.settled() and w.gfa.version == version:
                 check(w, m, st, n, op)
             continue
-        exp = c05.model_apply(m, op, core.Stats())
+        exp = c05.model_apply(m, op, st if op["op"] == "reshape_edge" else core.Stats())
         if exp == "skip":
             continue
         out = w.apply(op)
@@ -337,6 +369,9 @@ def run(scn, st):
                 st.count("probe.cell_checked")
                 st.sched(digest(scn["cfg"]["cell"]))
             check(w, m, st, n, op)
+        elif w.gfa.version == version:
+            st.count("probe.derived_while_unsettled")
+            derived(w.gfa, st, n)
 
 
 from .c02 import simplify  # noqa: E402,F401
